@@ -295,13 +295,21 @@ def build_transcript(tspec, parent=None, seqname=None):
         guid=_uuid(tspec.get("guid")), parent_or_seq_chunk_parent=parent)
 
 
+def _types_form(fspec):
+    """The feature types as a list, a tuple or a set (chosen by the content): all are collections of strings, stored as a set."""
+    types = list(fspec.get("feature_types") or [])
+    if not types:
+        return None
+    return (list, tuple, set)[(fspec["blocks"][0][0] + len(types)) % 3](types)
+
+
 def build_feature(fspec, parent=None, seqname=None):
     from inscripta.biocantor.gene.feature import FeatureInterval
 
     return FeatureInterval(
         interval_starts=_form(b[0] for b in fspec["blocks"]), interval_ends=_form(b[1] for b in fspec["blocks"]), strand=_strand(fspec["strand"]),
         qualifiers={k: list(v) for k, v in (fspec.get("qualifiers") or {}).items()} or None, sequence_name=seqname,
-        feature_types=list(fspec.get("feature_types") or []) or None, feature_name=fspec.get("feature_name"),
+        feature_types=_types_form(fspec), feature_name=fspec.get("feature_name"),
         feature_id=fspec.get("feature_id"), guid=_uuid(fspec.get("guid")), is_primary_feature=fspec.get("is_primary_feature"),
         parent_or_seq_chunk_parent=parent)
 
